@@ -337,8 +337,10 @@ func (s *solver) fallback(extra string, vars []string) (string, map[string]strin
 	defer cancel()
 	ch := make(chan ans, 3)
 	try := func(name string, args ...string) {
-		// "timeout": a solver orphaned by a killed run must not live on
-		out, _ := exec.CommandContext(ctx, "sh", "-c", fmt.Sprintf("ulimit -v 8000000; exec timeout %d ", FallbackTimeout+5)+strings.Join(args, " ")).CombinedOutput()
+		// the solvers carry their own hard time limit (a solver orphaned by a
+		// killed run must not live on); exec'd directly so that cancelling
+		// the context kills the solver itself
+		out, _ := exec.CommandContext(ctx, "sh", "-c", "ulimit -v 8000000; exec "+strings.Join(args, " ")).CombinedOutput()
 		txt := strings.TrimSpace(string(out))
 		first := txt
 		rest := ""
@@ -359,15 +361,17 @@ func (s *solver) fallback(extra string, vars []string) (string, map[string]strin
 		ch <- ans{name, "unknown", nil}
 	}
 	n := 3
+	hardS := fmt.Sprintf("-T:%d", FallbackTimeout+5)
+	hardMs := fmt.Sprintf("--tlimit=%d", (FallbackTimeout+5)*1000)
 	if s.kind == "cvc5" {
 		n = 3
-		go try("z3-5.1-oneshot", "z3-new", f)
-		go try("cvc5-strings", "cvc5", "--strings-exp", "--produce-models", f)
-		go try("z3-4.8", "z3", f)
+		go try("z3-5.1-oneshot", "z3-new", hardS, f)
+		go try("cvc5-strings", "cvc5", hardMs, "--strings-exp", "--produce-models", f)
+		go try("z3-4.8", "z3", hardS, f)
 	} else {
-		go try("cvc5-bv-as-int", "cvc5", "--solve-bv-as-int=sum", "--produce-models", f)
-		go try("cvc5", "cvc5", "--produce-models", f)
-		go try("z3-4.8", "z3", f)
+		go try("cvc5-bv-as-int", "cvc5", hardMs, "--solve-bv-as-int=sum", "--produce-models", f)
+		go try("cvc5", "cvc5", hardMs, "--produce-models", f)
+		go try("z3-4.8", "z3", hardS, f)
 	}
 	for k := 0; k < n; k++ {
 		a := <-ch
